@@ -277,8 +277,11 @@ def perturb_recovery(m, seed):
     rng = np.random.RandomState(seed % (2 ** 31))
     cols = ['lat', 'lon', 'alt', 'VN', 'VE', 'VD', 'roll', 'pitch', 'heading']
     ecols = ['north', 'east', 'down', 'VN', 'VE', 'VD', 'roll', 'pitch', 'heading']
-    for _ in range(40):
-        pva = pd.Series([float(rng.randint(-80, 81)), float(rng.randint(-179, 180)), float(rng.randint(0, 5000)),
+    for it in range(48):
+        # longitudes: anywhere, next to the +-180 meridian on either side (an east error of some metres crosses it), and in the
+        # 0..360 convention - the difference must recover the error wherever the state is (seeded change C18_8)
+        lon = float(rng.randint(-179, 180)) if it < 40 else (179.99995, -179.99995, 180.0, -180.0, 200.0, 359.5, 179.9999, -179.9999)[it - 40]
+        pva = pd.Series([float(rng.randint(-80, 81)), lon, float(rng.randint(0, 5000)),
                          float(rng.randint(-50, 51)), float(rng.randint(-50, 51)), float(rng.randint(-5, 6)),
                          float(rng.randint(-20, 21)), float(rng.randint(-20, 21)), float(rng.choice([175, -175, 0, 90, 179, -179]))], index=cols, name=3.0)
         err = pd.Series([float(x) for x in rng.randint(-100, 101, 3)] + [float(x) / 8 for x in rng.randint(-40, 41, 3)] +
@@ -300,7 +303,7 @@ def perturb_recovery(m, seed):
                 out.append("difference after perturbation: %s = %r, error applied %r" % (c, float(d[c]), float(err[c])))
         for c in ('north', 'east', 'down'):
             if abs(float(d[c]) - float(err[c])) > 1e-3 * abs(float(err[c])) + 1e-6:
-                out.append("difference after perturbation: %s = %r m, error applied %r m (lat %s)" % (c, float(d[c]), float(err[c]), pva.lat))
+                out.append("difference after perturbation: %s = %r m, error applied %r m (lat %s, lon %s)" % (c, float(d[c]), float(err[c]), pva.lat, pva.lon))
     return out
 
 
